@@ -287,6 +287,7 @@ CHECKS = {
             {"entry": M + "/sources/env.HarnessC16EnvPointers", "pkgs": ENVP + ["sort"], "must_reach": ["c16-types-end"]},
             {"entry": M + "/sources/env.HarnessC16EnvNamedElems", "pkgs": ENVP + ["sort"], "must_reach": ["c16-types-end"]},
             {"entry": M + "/sources/flag.HarnessC16FlagPtrLeaves", "pkgs": FLAGP, "must_reach": ["c16-flag-ptr-end"]},
+            {"entry": M + "/transform.HarnessC10TypeSubst", "pkgs": TFP, "must_reach": ["c10-typesubst-end"]},
             {"entry": PARSE + ".HarnessC16ParseTextThorough", "pkgs": TEXT, "must_reach": ["c16-text-end"], "loopcap": 300, "tiers": ["thorough"]},
             {"entry": CC + ".HarnessC16DecodeThorough", "pkgs": LIBS + ["go/token"], "must_reach": ["c16-decode-end"], "loopcap": 300, "tiers": ["thorough"], "workers": 16},
             {"entry": CC + ".HarnessC16EncodeThorough", "pkgs": LIBS + ["go/token"], "must_reach": ["c16-encode-end"], "loopcap": 300, "tiers": ["thorough"]},
@@ -329,6 +330,7 @@ CHECKS = {
             {"entry": M + "/sourcewrap.HarnessC20Blank", "pkgs": SW, "must_reach": ["c20-blank-end", "c20-blank-done"], "instrument": [M, M + "/sourcewrap"], "validate": 0},
             {"entry": M + "/sourcewrap.HarnessC20BlankContexts", "pkgs": SW, "must_reach": ["c20-blank-ctx-end", "c20-blank-late-end", "c20-blank-eager-end"], "instrument": [M, M + "/sourcewrap"], "validate": 0},
             {"entry": M + "/sourcewrap.HarnessC20Slices", "pkgs": SW + ["github.com/fatih/structtag"], "must_reach": ["c20-slices-end"], "instrument": [M, M + "/sourcewrap"], "validate": 0},
+            {"entry": M + "/sourcewrap.HarnessC20AnonFlatten", "pkgs": SW, "must_reach": ["c20-anon-end"], "instrument": [M, M + "/sourcewrap"], "validate": 0},
         ],
         "bounds": {"quick": "1 wrapped source (value- or pointer-returning), 3 updates, all int64 values; a decoder shared by 2 config types; Blank: 3 operations, SetSource contexts, SetSource after Done; slices of structs unset/empty/1 element initially and on update through a recursing mangler", "thorough": "same"},
         "outside": "other mangler lists on the watch path",
